@@ -8,7 +8,8 @@ From RtoscV Require Import Match.PatSpec Match.MatchModel Ports.NameModel Ports.
      Ports.WalkProofs Ports.WalkRegress Ports.DecProofs Ports.EnumProofs
      Ports.DispatchModel Ports.DispatchProofs Ports.TreeProofs Ports.DispatchWalk
      Ports.LookupGen Ports.NamesModel Ports.NamesOk Ports.SnipRegress
-     Ports.WalkRt Ports.EnabledModel Ports.EnabledProofs Ports.WalkRtExample.
+     Ports.WalkRt Ports.EnabledModel Ports.EnabledProofs Ports.WalkRtExample
+     Ports.LookupSpec Ports.DispatchAlias.
 Import ListNotations.
 Local Open Scope Z_scope.
 
@@ -142,8 +143,13 @@ Proof. exact ex_wf_ok. Qed.
    not end in '/'), and pairwise non-overlapping sibling names
    ([table_disjoint]: no message is matched by two ports of one table - the
    reading C04 uses).  hp / tid: any result of the perfect-hash search and any
-   table identities. *)
-Theorem C09_dispatchable : forall hp tid root id a ty o,
+   table identities.
+   PARTIAL: C09's text has no condition on sibling names; without table_disjoint
+   (names_ok below) the statement is false of the faithful model -
+   C09_dispatchable_refuted.  The side condition is the complement of the finding
+   dispatch-leading-zero-alias together with "no sibling's name a prefix of
+   another's" (C18's proviso; C04 calls every matching port). *)
+Theorem C09_dispatchable_partial : forall hp tid root id a ty o,
   Forall sport_wf root -> Forall dok root -> table_disjoint root ->
   tree_ok (to_tree hp tid root) ->
   forall out b, walk None (map render_port root) [] = WOk out b ->
@@ -177,7 +183,7 @@ Proof. exact ex_d_ok. Qed.
    two names spelling comparable strings clash (NamesOk.clash_sound; two digit
    runs at one place, each followed by a non-digit or the end, are equal or one
    string ends there). *)
-Theorem C09_dispatchable_names_ok : forall hp tid root id a ty o,
+Theorem C09_dispatchable_names_ok_partial : forall hp tid root id a ty o,
   names_ok root = true -> tree_ok (to_tree hp tid root) ->
   forall out b, walk None (map render_port root) [] = WOk out b ->
   In (id, a) out -> leaf_admits root id ty ->
@@ -188,6 +194,34 @@ Theorem C09_dispatchable_names_ok : forall hp tid root id a ty o,
   leaf_count (chain id t (strip a) ty o (Some [47])) = 1 /\
   length (chain id t (strip a) ty o (Some [47])) = length id.
 Proof. exact walk_dispatchable_names. Qed.
+
+(* REFUTED as the text has it (no sibling condition): siblings a#4b, a01b - names of the
+   documented shape, 1 <= N, no concrete name a prefix of another (names_shape, enums_pos,
+   sibling_prefix_free), the table is what the library builds (tree_ok), the leaf admits the
+   empty type string.  The walk reports ([1], "/a01b"); dispatching /a01b runs the callbacks
+   of port 0 (a#4b: "01" is an index below 4, C05) AND of port 1, with and without a
+   location buffer, d.matches = 2: not the chain of the reported port alone.  names_ok and
+   no_digit_facing are false for this table (the side conditions of the two _partial
+   theorems).  Same shape as C18_lookup_refuted; replayed on the real code
+   (corpus/C09/findings.txt).  Finding (proposed): dispatch-leading-zero-alias. *)
+Theorem C09_dispatchable_refuted :
+  let t := to_tree no_hash_search one_id alias_stree in
+  (names_shape alias_stree = true /\ enums_pos alias_stree = true /\ sibling_prefix_free alias_stree = true) /\
+  (names_ok alias_stree = false /\ no_digit_facing alias_stree = false) /\
+  tree_ok t /\ leaf_admits alias_stree [1%nat] [] /\
+  exists out b, walk None (map render_port alias_stree) [] = WOk out b /\
+    In ([1%nat], alias_msg) out /\
+    dispatch t alias_msg [] true 1 =
+    {| loc := Some [47]; matches := 2; obj := 1; dport := Some (2, 1);
+       log := [Ev 2 1 [97; 48; 49; 98] 1 (Some alias_msg) (Some (2, 1)) true;
+               Ev 2 0 [97; 48; 49; 98] 1 (Some alias_msg) (Some (2, 0)) true] |} /\
+    dispatch t alias_msg [] false 1 =
+    {| loc := None; matches := 0; obj := 1; dport := Some (2, 1);
+       log := [Ev 2 1 [97; 48; 49; 98] 1 None (Some (2, 1)) true;
+               Ev 2 0 [97; 48; 49; 98] 1 None (Some (2, 0)) true] |} /\
+    rev (log (dispatch t alias_msg [] true 1)) <> chain [1%nat] t (strip alias_msg) [] 1 (Some [47]) /\
+    matches (dispatch t alias_msg [] true 1) <> 1.
+Proof. exact walk_dispatch_refuted. Qed.
 
 Theorem C09_names_ok_sound : forall root, names_ok root = true ->
   Forall sport_wf root /\ Forall dok root /\ table_disjoint root /\ Forall lok root /\ lookup_disjoint root.
@@ -211,7 +245,7 @@ Proof. exact ex_names_ok. Qed.
    callbacks skipped one component of the message ..." SNIP skips as many
    components as the matched name has, the walked addresses dispatch to the
    reported leaf and names_ok accepts such names (structured by components),
-   so C09_dispatchable / C09_dispatchable_names_ok / C18_lookup cover them. *)
+   so C09_dispatchable_partial / C09_dispatchable_names_ok_partial / C18_lookup_names_ok_partial cover them. *)
 Theorem C09_multicomponent_macro :
   walk None (map render_port ex_multi) [] = WOk [([0%nat; 0%nat], [47; 97; 47; 98; 47; 120])] [47] /\
   (let d := dispatch (to_tree no_hash_search one_id ex_multi) [47; 97; 47; 98; 47; 120] [] true 0 in
